@@ -4,8 +4,8 @@ Content-Range (GET and HEAD); (R2) the boundary token is identical in the
 Content-Type literal, the part delimiter template and the closing delimiter; the
 part header is delimiter + `Content-Range: bytes {}-{}/{}` + entity headers
 rendered `name: value CRLF` + blank line; (R3) template arguments are
-(r.start, r.end-1, entity length) of the loop's r; (R4) without If-Range the
-entity's headers are passed to every part; (R5) part headers are appended once
+(r.start, r.end-1, entity length) of the loop's r; (R4) the entity's headers are passed to every part
+exactly when the request had no If-Range; (R5) part headers are appended once
 per element of an ascending iteration over the range slice and the stream uses
 one index for both lists; (R6) the announced length is exactly the sum of the
 pieces streamed (C01.R4-R6).  Does not decide: header values the entity supplies."""
@@ -33,7 +33,13 @@ def r4_entity_headers(ctx, M):
                 has = is_agg(a) and a[3] == "Some" and any(h[0] == ("ENTITY",) for h in (agg_get(a, "0")[1] if agg_get(a, "0")[0] == "hdrs" else ()))
                 if ifr == "None" and not has:
                     ctx.violation("C06.R4", "C06.R4|missing", "without If-Range the entity's headers are not passed to the multipart parts", where=where(e))
-    ctx.ok("C06.R4", "no If-Range => entity headers rendered into every part", detail={"rows": n})
+                pe = SM.parser_event(ctx, r)
+                range_seen = pe is not None and not (is_agg(pe["args"][0]) and pe["args"][0][3] == "None")
+                # (rows on which the range parser was handed `None` cannot have several ranges: C03.R4 - not multipart rows)
+                if ifr == "Some" and has and range_seen:
+                    ctx.violation("C06.R4", "C06.R4|with-if-range", "with If-Range the entity's headers are still rendered into every part (the parts carry them "
+                                  "only when the request had no If-Range)", where=where(e))
+    ctx.ok("C06.R4", "entity headers rendered into every part iff the request had no If-Range", detail={"rows": n})
     ctx.floor("C06.R4", n, 4, what="multipart preparation call rows")
 
 
